@@ -31,6 +31,10 @@ CHECKS = {
   text="Property-based testing of fragment graphs: generated DAGs of integer fragment instances (fan-out, links crossing CP boundaries, register-name clashes, the same fragment collapsed twice) are assembled by the real basm pipeline for several partitions each (finest, coarsest, random, collapse lists in topological order) and simulated; every partition's external outputs must equal the direct evaluation of the dataflow graph by an independent evaluator. One genuine defect class (sync-mode deadlock of some partitions) is recorded as a known finding, predicted by a model of the composer's static IO order and excluded so the search continues.",
   note="Trusted: the reference evaluator harness/c06/ref.go, the rendezvous model that recognises the recorded deadlock class, the Go simulator for the faithful opcodes used.",
   technique="property-based testing (rapid): reference-model oracle (dataflow evaluation) + metamorphic relation across partitions"),
+ "C07": dict(
+  text="Generated-input search for nondeterminism: grammar-generated BASM sources (sections, CPs, fragments, macros, dynamic opcodes, cluster output, chooser/pass/optimisation flags), neural nets (both neuralbond modes, then basm), quantum circuits (bmqsim flavours, then basm), Go-subset programs (bondgo incl. -mpm) and machines for HDL generation are each run N times as fresh child processes of the real CLIs with varied GOMAXPROCS, and twice in-process on fresh instances; every output file, stdout and exit status must be byte-identical. Found five map-iteration-order nondeterminisms (all fixed in /repo).",
+  note="Trusted: the byte comparison (timestamps stripped, crash dumps cut after the panic line). A nondeterminism with per-run probability p is missed with (1-p)^(N-1); rarer orders are out of reach.",
+  technique="property-based testing (rapid): metamorphic run-to-run equality over repeated fresh-process and in-process executions of generated inputs"),
  "C08": dict(
   text="Property-based testing of the number library: (a) strings generated from every notation's regular language (plus mutations and a corpus) are run through every matcher: at most one may accept; (b) export/import round-trip on bits, type and width for every supported type and boundary-weighted values, ExportBinaryNBits/ExportVerilogBinary width laws; (c) sized literals import to the stated width or are rejected. Native fuzzing of ImportString in the thorough tier. Found D2 and the sized-hex storage defect (both fixed) and four round-trip defects recorded as known findings.",
   note="Trusted: the deterministic matcher scan in harness/c08 (ImportString's map walk is bypassed), bit-level comparison. Disjointness of the notations is searched, not proved.",
@@ -63,7 +67,6 @@ CHECKS = {
 
 PENDING = {
  "C05": "check under construction (planned: reference interpreter of BASM source vs simulation)",
- "C07": "check under construction (planned: repeated-run byte equality)",
  "C15": "check under construction (planned: rule print/parse round-trip + trace predictor)",
  "C16": "check under construction (planned: independent well-formedness validator over front-end outputs)",
  "C18": "check under construction (planned: lint of generated file sets with /verif's Verilog front end)",
